@@ -115,7 +115,7 @@ class Births(Demographics):
 
         # Calculate crude birth rate (CBR)
         inv_rate_units = 1.0/self.pars.rate_units
-        births_per_year = self.n_births/self.sim.t.dt_year
+        births_per_year = self.n_births/self.t.dt_year
         denom = self.sim.people.alive.sum()
         self.results.cbr[self.ti] = inv_rate_units*births_per_year/denom
         return
@@ -254,7 +254,7 @@ class Deaths(Demographics):
     def finalize(self):
         super().finalize()
         self.results.cumulative[:] = np.cumsum(self.results.new)
-        units = self.pars.rate_units*self.sim.t.dt_year
+        units = self.pars.rate_units*self.t.dt_year
         inds = self.match_time_inds()
         n_alive = self.sim.results.n_alive[inds]
         deaths = np.divide(self.results.new, n_alive, where=n_alive>0)
@@ -583,7 +583,7 @@ class Pregnancy(Demographics):
 
     def finalize(self):
         super().finalize()
-        units = self.pars.rate_units*self.sim.t.dt_year
+        units = self.pars.rate_units*self.t.dt_year
         inds = self.match_time_inds()
         n_alive = self.sim.results.n_alive[inds]
         births = np.divide(self.results['births'], n_alive, where=n_alive>0)
